@@ -31,9 +31,19 @@ func cpInstances() []*verifx.FInst {
 		{ID: "a2", Node: "n2", NodeAddr: "10.0.2.1", ServiceID: "web", ServiceName: "svc-a", Addr: "10.0.2.7", Port: 8001,
 			GoodTags: []string{"urlprefix-/a"}, BadTags: []string{"urlprefix-/a", `a"quote`}},
 		{ID: "b1", Node: "n1", NodeAddr: "10.0.1.1", ServiceID: "api", ServiceName: "svc-b", Addr: "10.0.1.1", Port: 8002,
-			GoodTags: []string{"urlprefix-b.com/ proto=https", "urlprefix-/b2 strip=/b2", "urlprefix-:7000 proto=tcp", "urlprefix-/b3 register=b3alias", "urlprefix-/A"}, BadTags: []string{"urlprefix-/b2 weight=1e999x"}},
+			GoodTags: []string{"urlprefix-b.com/ proto=https", "urlprefix-/b2 strip=/b2", "urlprefix-:7000 proto=tcp", "urlprefix-/b3 register=b3alias", "urlprefix-/A", "urlprefix-${DC}.b.com/dc"}, BadTags: []string{"urlprefix-/b2 weight=1e999x"}},
 	}
 	naming := os.Getenv("VERIF_NAMING")
+	// an untagged second registration of svc-a on node n1 (another service id), always passing: it advertises
+	// nothing, and it must not influence what the tagged registration of the same name on that node gets
+	insts = append(insts, &verifx.FInst{ID: "a0", Node: "n1", NodeAddr: "10.0.1.1", ServiceID: "a-internal", ServiceName: "svc-a",
+		Addr: "", Port: 8001, GoodTags: []string{"internal", "other"}, BadTags: []string{"internal"}})
+	if !strings.Contains(naming, "split") {
+		// twins: both /a instances registered WITHOUT a service address (the node address counts), same port, same tags
+		insts[1].Addr = ""
+		insts[1].GoodTags = append([]string{}, insts[0].GoodTags...)
+		cpDst["a2"] = "10.0.2.1:8001"
+	}
 	if strings.Contains(naming, "split") {
 		// three service names instead of two (a2 registers under a name of its own): with
 		// registry.consul.serviceMonitors = 2 or 3 the services do not divide evenly among the monitors
@@ -58,7 +68,7 @@ var cpKV = map[string]string{
 }
 
 // prefixes an instance advertises when it is routed, and its destination
-var cpRoutes = map[string][]string{"a1": {"/a"}, "a2": {"/a"}, "b1": {"b.com/", "/b2", ":7000", "/b3", "/A"}, "X": {"/x"}}
+var cpRoutes = map[string][]string{"a1": {"/a"}, "a2": {"/a"}, "b1": {"b.com/", "/b2", ":7000", "/b3", "/A", "dc1.b.com/dc"}, "X": {"/x"}}
 var cpDst = map[string]string{"a1": "10.0.1.1:8001", "a2": "10.0.2.7:8001", "b1": "10.0.1.1:8002", "X": "10.9.9.9:9999"}
 
 // the protocol each advertised prefix must be routed with (default http)
@@ -229,6 +239,10 @@ func cpApply(f *verifx.FakeConsul, kind, id, state string) {
 // cpReset brings the registry back to the initial state of the specification.
 func (r *cpRig) reset() {
 	for _, i := range cpInstances() {
+		if i.ID == "a0" {
+			r.F.SetInst(i.ID, "pass")
+			continue
+		}
 		r.F.SetInst(i.ID, "absent")
 	}
 	r.F.SetNode("n1", "ok")
